@@ -28,7 +28,17 @@ pub enum F {
     GetUnknown,
 }
 
-const PAYLOADS: [&str; 6] = ["x", "a b", "x  ", "é✓", " x", "a\tb\nc"];
+const PAYLOADS: [&str; 8] = [
+    "x",
+    "a b",
+    "x  ",
+    "é✓",
+    " x",
+    "a\tb\nc",
+    // command lines longer than 64 bytes with a two-byte character across / right behind byte 64
+    "aaaaaaaaaaaaaaaaaaaaaaaaaaaaaaaaaaaaaaaaaaaaaaaaaaaaaaaaaé",
+    "aaaaaaaaaaaaaaaaaaaaaaaaaaaaaaaaaaaaaaaaaaaaaaaaaaaaaaaaaaé",
+];
 
 fn bytes_of(f: &F) -> Vec<u8> {
     match f {
@@ -148,6 +158,8 @@ pub fn check_c24(tier: &str) -> i32 {
         F::Put(3),
         F::Put(4),
         F::Put(5),
+        F::Put(6),
+        F::Put(7),
         F::Get,
         F::State,
         F::Metrics,
@@ -259,7 +271,7 @@ pub fn check_c24(tier: &str) -> i32 {
         samples,
         exhaustive: cap.is_none(),
         cap,
-        rule: format!("every sequence of 1..{} frames over an 18-frame alphabet (REGISTER, 6 PUT payloads incl. leading and trailing blanks, inner blank / tab / newline and non-ASCII, GET, STATE, METRICS, unknown command, incomplete PUT, zero length, largest legal length with body, length one over the limit with a frame-shaped body, length 2^32-1 without body, invalid UTF-8, GET on an unknown topic), and the same sequences of length < {} after a REGISTER, each sent on one connection to the real client.rs accept loop in front of a real single-node controller; states = sequences whose responses matched the reference model one-for-one", maxlen, maxlen),
+        rule: format!("every sequence of 1..{} frames over a 20-frame alphabet (REGISTER, 8 PUT payloads incl. leading and trailing blanks, inner blank / tab / newline, non-ASCII, and command lines longer than 64 bytes with a two-byte character across / behind byte 64, GET, STATE, METRICS, unknown command, incomplete PUT, zero length, largest legal length with body, length one over the limit with a frame-shaped body, length 2^32-1 without body, invalid UTF-8, GET on an unknown topic), and the same sequences of length < {} after a REGISTER, each sent on one connection to the real client.rs accept loop in front of a real single-node controller; states = sequences whose responses matched the reference model one-for-one", maxlen, maxlen),
         extra: json!({"sequences": seqs.len(), "pruned_behind_known_finding": known.len(), "machinery_errors": errors.iter().take(3).collect::<Vec<_>>()}),
         assumptions: vec![
             "tokio stand-in: a scripted in-memory socket delivers the whole client byte stream; read_exact semantics make the split of the stream into TCP segments unobservable, so partial reads are not enumerated".into(),
